@@ -81,7 +81,7 @@ def build_harness():
     return VH
 
 
-def vh(args, timeout=3600, env=None):
+def vh(args, timeout=1500, env=None):
     build_harness()
     rc, out, dt = run([VH] + [str(a) for a in args], cwd=VERIF, timeout=timeout, env=env)
     if rc != 0:
@@ -254,6 +254,9 @@ def known_findings(pid):
 # ----------------------------------------------------------------------------
 # Reporting
 # ----------------------------------------------------------------------------
+CURRENT_REPORT = None
+
+
 class Report:
     def __init__(self, pid, tier, level="model_checking"):
         self.pid, self.tier, self.level = pid, tier, level
@@ -265,6 +268,8 @@ class Report:
         self.known = {}           # finding id -> count
         self.known_open = known_findings(pid)
         self.notes = {}
+        global CURRENT_REPORT
+        CURRENT_REPORT = self     # (bin/check: a violation found before a later tool error is still reported)
 
     def add_mc(self, res, name):
         self.cov["states"] += res.distinct
